@@ -7,7 +7,7 @@ to the same allocator."""
 import re
 import build, zv, frames
 
-ASSUMPTIONS = ["the catalogue of scenarios is finite (41: 30 + 11 in which the failing context only references objects the caller still owns); for each scenario the enumeration over k is complete, the allocation sites themselves are not modelled",
+ASSUMPTIONS = ["the catalogue of scenarios is finite (45: 30 + 11 in which the failing context only references objects the caller still owns + 4 in which the caller frees a context mid-frame while its jobs run on a borrowed thread pool); for each scenario the enumeration over k is complete, the allocation sites themselves are not modelled",
                "in multithreaded scenarios the k-th request depends on the OS schedule (sampled); allocations by libc / pthread outside ZSTD_customMem are not failed"]
 
 SRCS = ["zvh_fault.c"] + ["zvh_fault_%s.c" % f for f in ("cover", "fastcover", "zdict", "divsufsort")]
@@ -30,6 +30,13 @@ def parse(o):
 def owned(n):
     """scenario family: objects the caller still owns (shared thread pool, referenced CDict / DDict / prefix) must survive a failed call"""
     return n.startswith("own_")
+
+
+def abandon(n):
+    """scenario family: the caller frees a context in the middle of a frame while its jobs run on a thread pool it only borrowed
+    (ZSTD_createThreadPool / ZSTD_CCtx_refThreadPool, pool shared with a second context); the harness holds the jobs inside the allocator
+    so that they are certainly in flight when ZSTD_freeCCtx is entered"""
+    return n.startswith("own_pool_mt_abandon")
 
 
 def scen_of(op):
@@ -100,6 +107,11 @@ def correspondence(ctx):
     allocs = {}
     for n, (o, crash) in zip(names, base):
         g = parse(o) if o else None
+        if g and g[2] == "ok" and g[3].startswith("ok") and g[5] is not None and not g[5].startswith("ok"):
+            allocs[n] = int(g[1])        # only the probe of the caller-owned objects fails: judge() below reports it with the op as input; every k is still run
+            continue
+        if crash is not None and abandon(n):
+            continue                     # the harness died in the fault-free run of a lifecycle scenario: judge() below reports the crash with the op as input
         if not g or g[2] != "ok" or not g[3].startswith("ok") or (g[5] is not None and not g[5].startswith("ok")):
             ctx.violation("scenario %s fails without any fault: %s" % (n, (o or crash or "")[:300]), dict(kind="internal", op="run %s 0" % n), no_input=True)
             continue
